@@ -5,6 +5,7 @@ pub mod c01;
 pub mod c02;
 pub mod c03;
 pub mod c04;
+pub mod c05;
 pub mod c12;
 pub mod c13;
 pub mod c14;
@@ -12,6 +13,7 @@ pub mod c15;
 pub mod c16;
 pub mod c17;
 pub mod hard;
+pub mod mc;
 
 pub fn run(ctx: &Ctx, prop: &str) -> bool {
     match prop {
@@ -19,6 +21,7 @@ pub fn run(ctx: &Ctx, prop: &str) -> bool {
         "C02" => c02::run(ctx),
         "C03" => c03::run(ctx),
         "C04" => c04::run(ctx),
+        "C05" => c05::run(ctx),
         "C12" => c12::run(ctx),
         "C13" => c13::run(ctx),
         "C14" => c14::run(ctx),
@@ -36,6 +39,7 @@ pub fn replay(ctx: &Ctx, prop: &str, kind: &str, case: &Value) -> bool {
         "C02" => c02::replay(ctx, kind, case),
         "C03" => c03::replay(ctx, case),
         "C04" => c04::replay(ctx, case),
+        "C05" => c05::replay(ctx, case),
         "C12" => c12::replay(ctx, case),
         "C13" => c13::replay(ctx, kind, case),
         "C14" => c14::replay(ctx, case),
